@@ -5,7 +5,7 @@
    element-wise moduli of the flat complex array [a]; [schmidt_K_Q] is the executable rational instance that the
    check runs (vm_compute) on the arrays handed to the Rust function. *)
 From Coq Require Import Reals NArith QArith Lra List.
-From SpdVerif Require Import Model.FinSum Model.Schmidt Proofs.FinSum_lemmas Proofs.RMat Proofs.C11_len Proofs.C11_trace
+From SpdVerif Require Import Model.FinSum Model.Hom Model.Schmidt Proofs.FinSum_lemmas Proofs.RMat Proofs.C11_len Proofs.C11_trace
   Proofs.C11_families Proofs.C11_svd Proofs.C11_exec Gen.SchmidtSrc Proofs.C11_src.
 Local Open Scope R_scope.
 
@@ -42,6 +42,20 @@ Theorem C11_source_code_path :
     end.
 Proof. exact src_code_path. Qed.
 
+(* setup level: JointSpectrum::schmidt_number(range) is the function applied to the setup's sampled amplitudes (J arbitrary);
+   on a square grid of side n it is never rejected and, when the oracle answers, equals the trace form of the samples *)
+Theorem C11_setup_level :
+  forall svd : nat -> (nat -> nat -> R) -> option (nat -> R),
+  (forall n M sv, svd n M = Some sv -> is_svd n M sv) ->
+  forall J g n, g_cols g = n -> g_rows g = n ->
+    src_setup_schmidt_number svd J g = schmidt_number svd (grid_len g) (tabulate J g) /\
+    match src_setup_schmidt_number svd J g with
+    | ErrNotSquare => False
+    | ErrSvd => svd n (mag_matrix n (tabulate J g)) = None
+    | OkK k => k = schmidt_K ROps n (mag_matrix n (tabulate J g))
+    end.
+Proof. exact src_setup_level. Qed.
+
 Theorem C11_rejects_nonsquare :
   forall svd : nat -> (nat -> nat -> R) -> option (nat -> R),
   (forall n M sv, svd n M = Some sv -> is_svd n M sv) ->
@@ -74,6 +88,19 @@ Proof. exact schmidt_diagonal. Qed.
 Theorem C11_perm_diagonal : forall n p q m, is_perm n p q -> (0 < n)%nat -> m <> 0 ->
   trG2 ROps n (perm_diag p (fun _ => m)) <> 0 /\ schmidt_K ROps n (perm_diag p (fun _ => m)) = INR n.
 Proof. exact schmidt_perm_diag. Qed.
+
+(* the two extremes on the flat complex array as the function receives it *)
+Theorem C11_separable_array : forall n (u v a : nat -> cx R),
+  (forall r c, (r < n)%nat -> (c < n)%nat -> a (r * n + c)%nat = cmul ROps (u r) (v c)) ->
+  (exists r c, (r < n)%nat /\ (c < n)%nat /\ a (r * n + c)%nat <> (0, 0)) ->
+  schmidt_K ROps n (mag_matrix n a) = 1.
+Proof. exact schmidt_separable_complex. Qed.
+
+Theorem C11_perm_diagonal_array : forall n p q m (a : nat -> cx R),
+  is_perm n p q -> (0 < n)%nat -> m <> 0 ->
+  (forall r c, (r < n)%nat -> (c < n)%nat -> cmod (a (r * n + c)%nat) = if Nat.eqb c (p r) then m else 0) ->
+  schmidt_K ROps n (mag_matrix n a) = INR n.
+Proof. exact schmidt_perm_diag_complex. Qed.
 
 (* invariances, stated on the flat complex array as the function receives it *)
 Theorem C11_scale : forall n (a : nat -> cx R) (z : cx R),
@@ -128,6 +155,7 @@ Print Assumptions C11_square_check.
 Print Assumptions C11_code_path.
 Print Assumptions C11_source_is_model.
 Print Assumptions C11_source_code_path.
+Print Assumptions C11_setup_level.
 Print Assumptions C11_rejects_nonsquare.
 Print Assumptions C11_svd_link.
 Print Assumptions C11_bounds.
@@ -135,6 +163,8 @@ Print Assumptions C11_defined_iff_nonzero.
 Print Assumptions C11_separable.
 Print Assumptions C11_diagonal.
 Print Assumptions C11_perm_diagonal.
+Print Assumptions C11_separable_array.
+Print Assumptions C11_perm_diagonal_array.
 Print Assumptions C11_scale.
 Print Assumptions C11_phases.
 Print Assumptions C11_moduli_only.
